@@ -856,6 +856,16 @@ def run_sender_case(rng, budget=70, adversarial=False):
             w.consumers[k].update(cid=k + 1, eph=0)
         w.plan = [('req', 0, 0, 5), ('none', 0, 0), ('req', 0, 0, 10), ('req', 1, 0, 10), ('none', 0, 0),
                   ('req', 0, 0, 50), ('req', 0, 0, 2500), ('req', 0, 0, 2500), ('req', 0, 0, 2000), ('req', 1, 0, 100), ('none', 0, 0)]
+    if balance and ncons >= 3 and nout >= 2 and not getattr(w, 'plan', None) and rng.random() < 0.35:
+        # directed prefix for a splitter whose first branch serves TWO synchronized consumers: both get known, then the first one
+        # keeps asking (always the older id, so its branch is the one a splitter prefers) while its neighbour on the branch has
+        # stopped; the consumer on the second branch asks too.  Frames go to the second branch only.
+        w.consumers[0].update(cid=1, out=0, eph=0)
+        w.consumers[1].update(cid=2, out=1, eph=0)
+        w.consumers[2].update(cid=3, out=0, eph=0)
+        w.plan = [('req', 0, 0), ('req', 1, 0), ('req', 2, 0), ('none', 0, 0), ('req', 0, 0), ('req', 1, 0), ('req', 2, 0), ('none', 0, 0)]
+        for _ in range(rng.randint(2, 5)):
+            w.plan += [('req', 0, 1), ('req', 1, 0), ('none', 0, 0), ('none', 0, 0)]
     if not balance and ncons >= 2 and not getattr(w, 'plan', None) and rng.random() < 0.2:
         # directed prefix: a synchronized consumer and a '?' listener; in every round the consumer asks for the next frame and THEN
         # the listener says something - leaves (CLOSE), comes back (hello), sends an out-of-band message, asks - before the inbox
@@ -1176,6 +1186,29 @@ def send_oracle(run, case, props):
                               "then only '?' listeners spoke (items %s) and the frame in hand was not published when the inbox ran empty (item %d)"
                               % (j, rj[1]['cid'], listeners, k), dict(summary, observed=[[l, items[l][1], items[l][2]] for l in range(j - 1, min(k + 1, len(items)))]))
                 break
+    if props & {'C04', 'C07'} and cfg['balance']:
+        # a splitter publishes on a branch only when EVERY synchronized consumer on that branch has asked: a consumer that shares
+        # its branch with a busy one and has stopped taking frames is not sent any (C04, one of several consumers; C07)
+        items = case['items']
+        for k in range(1, len(items)):
+            it, pv = items[k], items[k - 1]
+            pubs = [o for o in it[1] if o[0] == 'P']
+            if not pubs or pv[2] is None or it[2] is None or _in_push_call(items, k):
+                continue
+            req = it[3][1] if it[3][0] == 'poll' else None
+            after = {(c[0], c[1]) for c in it[2][1]}
+            outs = set(pubs[0][1])
+            for c in pv[2][1]:
+                key = (c[0], c[1])
+                mine = bool(req) and (req['cid'], req['uid']) == key
+                if c[2] in outs and c[5] == 0 and not c[4] and not mine and key in after:
+                    run.violation('balanced:published-to-unasked-consumer client=c%d/u%d branch=%d' % (c[0], c[1], c[2]),
+                                  'item %d: the splitter published id %s on branch(es) %s although the synchronized consumer c%d/u%d on that branch has no unanswered request'
+                                  % (k, pubs[0][2], sorted(outs), c[0], c[1]), summary)
+                    break
+            else:
+                continue
+            break
     if props & {'C05', 'C07'} and cfg['balance']:
         # a splitter's gate, judged on the client table: an endpoint is ready when every client on it has asked or is an ephemeral
         # listener and at least one has asked; with every required output connected, a ready endpoint means the frame in hand
